@@ -2,7 +2,7 @@
 on the normal form of the program (normalize.py: helpers inlined, literal loops unrolled, ...).  The two programs are
 equivalent, so a rule discharged on either one is discharged; a rule that reports a finding on both reports it."""
 from __future__ import annotations
-import importlib
+import importlib, os
 from . import frontend, report
 
 
@@ -29,6 +29,14 @@ def decide(pid, repo=None, tier='quick', seed=0, only=None):
         err = e
     known = _known_keys(pid)
     bad = [r for r in ctx.rules if _bad(r, known)]
+    force = os.environ.get('VSA_FORCE_NORMAL') == '1'     # debugging aid: decide everything on the normal form
+    if force:
+        prog2 = frontend.Program(repo)
+        prog2.enable_normal_form()
+        ctx2 = report.Ctx(pid, tier, prog2, seed)
+        ctx2.only = only
+        mod.run(ctx2)
+        return ctx2
     if err is None and not bad:
         return ctx
     prog2 = frontend.Program(repo)
